@@ -9,10 +9,23 @@ TB = "CPython 3.12, crosshair-tool 0.0.110, z3 5.1; the import shim of lib/repo_
 
 # id -> (category, technique, text, note, design_ref, engine)
 CHECKS = {
+    "C07": ("translation_validation",
+            "CrossHair/z3 symbolic execution of (CPython with reference semantics on the source || interpretation of the HUGR emitted by /repo's back end) for symbolic inputs and symbolic results of opaque calls",
+            "Restricted to classical data: 7 fixed programs in which callees update borrowed int arrays in place (element stores, augmented stores, swaps, loops, branches, nested borrowing calls, two borrowed arrays, "
+            "a borrowed row of an array of arrays, an array in a struct field and in a tuple element); after every call the caller must see exactly what CPython's reference semantics gives, on every path for x in [-3,4], "
+            "|y| <= 1000, |opaque results| <= 1000. Qubits / gate application, everything after the emitted HUGR, and indices outside [0, n) are outside.",
+            TB + "; lib/e7.py (reading of HUGR dataflow regions, CFG, Conditional, Call, the array extension ops); lib/e5.OPS", "DESIGN.md §5 C07", "E7"),
+    "C19": ("translation_validation",
+            "CrossHair/z3 symbolic execution of (CPython with a bounds-checking list oracle on the source || interpretation of the HUGR emitted by /repo's back end) for symbolic indices and values",
+            "Restricted to classical element types: 6 fixed programs (reads, stores, augmented stores with unconstrained indices on an int array of length 3 and on a 2x3 array of arrays, indices handed to borrowing callees, "
+            "full and starred unpacking, iteration, array comprehension, copy()). For every index value in the bounds (negative, in range, too large) the emitted program must touch exactly element i or panic, and unpacking / "
+            "iteration / comprehension / copy must see the elements in index order. The double-borrow clause, qubit arrays and the run-time implementation of the array ops are outside.",
+            TB + "; lib/e7.py incl. its reading of the HUGR array extension ops outside [0, n)", "DESIGN.md §5 C19", "E7"),
     "C11": ("model_checking",
-            "solver-enumerated (CrossHair/z3) histories of .check() calls through the real engine and checker; the target's outcome after every history within the bound is compared with its first-check outcome",
-            "Restricted to checking (the HUGR cannot be produced for /repo here): over a pool of 10 definitions (accepted and failing, struct, generics, closures, std iterators) every history of up to 2 (quick) / 3 (thorough) earlier "
-            "check() calls followed by the target and a re-check of the target yields the same rendered diagnostic / the same checked CFG dump as checking the target first.",
+            "solver-enumerated (CrossHair/z3) histories of check+lower calls through the real engine, checker and back end; the target's outcome after every history within the bound is compared with its first-check outcome",
+            "Over a pool of 17 definitions (accepted and failing, failing call chains, shared callees, struct, generics, closures, std iterators, a never-returning and a twice-instantiated comptime-monomorphised function) every "
+            "history of up to 2 (quick) / 3 (thorough) earlier check+lower calls followed by the target and a repeat of the target yields the same rendered diagnostic / the same checked CFG dump and the same emitted HUGR "
+            "(structural dump) as doing the target first. Packaging, validation and emulate() stay outside.",
             TB + "; ENGINE.reset() + first use stands for a new session; outcome normalisation (addresses, counter of temporaries)", "DESIGN.md §5 C11", "E1"),
     "C13": ("model_checking",
             "solver-enumerated (CrossHair/z3) configurations through the real FunctionType.instantiate_partial / instantiate / unquantified, Instantiator, Param.with_idx / instantiate_bounds and partially_monomorphize_args / compile_variable_idx; composition laws and hand-written textual substitution as oracle",
@@ -157,12 +170,10 @@ CHECKS = {
 }
 
 NOT_APPLICABLE = {
-    "C01": "validity is decided by HUGR emission + the Rust validator; /repo's emitter cannot run against its pinned hugr/tket-exts here (installed 0.18/0.14 vs required 0.14/0.12) and the quantifier is over whole programs only",
+    "C01": "validity of the emitted HUGR is decided by the Rust validator (hugr.cli.validate), not by a solver: /repo's lowering does run here (CompilerContext.compile, used by the E7 checks) but the deciding step of this property is outside the technique, and the quantifier is over whole programs only",
     "C02": "quantifies over whole programs through the entire checker (ast/str objects CrossHair must realise); no input a solver can range over; the rendering sub-claim is decided under C29",
-    "C07": "write-back of borrowed arguments is generated during HUGR emission and observed on the emulator; neither runs for /repo's sources in this sandbox",
-    "C19": "bounds/alias panics are executed by HUGR borrow_array ops inside Selene; /repo only selects which ops to emit (back end)",
     "C20": "gate matrices live in tket/Selene; needs complex floating-point matrix products with sin/cos, outside SMT reach; emulator cannot run /repo's output",
-    "C25": "concerns the emitted HUGR structure only (modifier_compiler, back end)",
+    "C25": "concerns the structure of the emitted HUGR for modifier blocks whose meaning is fixed by tket's modifier ops on qubits; no classical observable the E7 interpreter could compare, nothing a solver could range over",
     "C26": "wiring is emitted by the back end and judged on the emulator; pytket circuits are opaque C++ objects that symbolic execution must concretise",
 }
 
@@ -198,6 +209,8 @@ def main():
             "add_only": True,
         },
         "engines": [
+            {"name": "E7", "path": "lib/e7.py", "kind_free_text": "interpreter over the HUGR emitted by /repo's back end (CompilerContext.compile runs under the import shim), executed under CrossHair side by side with CPython on symbolic inputs; static check that possibly side-effecting nodes of a region are ordered"},
+            {"name": "E5", "path": "lib/e5.py", "kind_free_text": "interpreter over the checked CFGs of the real front end (live operator bindings -> HUGR op semantics), executed under CrossHair side by side with CPython"},
             {"name": "E4", "path": "lib/e4.py", "kind_free_text": "translation validation of the real CFGBuilder's output against CPython's execution of the same source under CrossHair (symbolic inputs and call results); corpora from lib/e4_corpus.py, lib/e4_syntax.py"},
             {"name": "E3", "path": "lib/e3_num.py", "kind_free_text": "direct z3 encodings generated from /repo's live binding tables (numeric tower), process pool, concrete replay against CPython"},
             {"name": "E2", "path": "lib/guppy_models.py", "kind_free_text": "Guppy std source (Python syntax) from /repo compiled unchanged and executed under CrossHair with Python models of the Guppy primitives"},
